@@ -254,6 +254,29 @@ impl Session {
                     info["s"] = json!(s);
                     Ok(())
                 }
+                "writes" => {
+                    // two writers racing: seqnos in item order, inserts in reverse order
+                    let items = op["items"].as_array().ok_or("skip:arg items")?;
+                    let seqs: Vec<u64> = items.iter().map(|_| self.seq.next()).collect();
+                    for (it, s) in items.iter().zip(seqs.iter()).rev() {
+                        let k = self.conc.key(it["k"].as_i64().ok_or("skip:arg k")?);
+                        match it["t"].as_str().ok_or("skip:arg t")? {
+                            "V" => {
+                                let v = self.conc.val(it["v"].as_i64().ok_or("skip:arg v")?);
+                                self.t().insert(k, v, *s);
+                            }
+                            "T" => {
+                                self.t().remove(k, *s);
+                            }
+                            x => return Err(format!("skip:bad type {x}")),
+                        }
+                    }
+                    if let Some(last) = seqs.last() {
+                        self.vis.fetch_max(last + 1);
+                    }
+                    info["s"] = json!(seqs.first().copied().unwrap_or(0));
+                    Ok(())
+                }
                 "rotate" => {
                     self.t().rotate_memtable();
                     Ok(())
